@@ -205,6 +205,7 @@ func (c *Ctx) adp9() {
 	// classify the lists by the guards of their appends
 	lc := c.listClassesOf(ad)
 	kinds := map[ssa.Value]listKind{}
+	badMask := map[*ssa.BinOp]int64{}
 	for _, p := range paths {
 		for i := range p.Events {
 			e := &p.Events[i]
@@ -233,6 +234,17 @@ func (c *Ctx) adp9() {
 				for _, cm := range assumed(p, 0, i) {
 					if cm.Op == token.EQL && isK(cm.Y, sp) {
 						if bo, ok := stripConv(cm.X).(*ssa.BinOp); ok && (bo.Op == token.AND_NOT || bo.Op == token.AND) {
+							// the identifier space is what is left of the key without the sequence
+							// bits: all of publishIDMask cleared, nothing else
+							if m, isK := intConst(bo.Y); isK {
+								cleared := m
+								if bo.Op == token.AND {
+									cleared = ^m
+								}
+								if cleared&0xffff != pm {
+									badMask[bo] = m
+								}
+							}
 							return true
 						}
 					}
@@ -258,6 +270,14 @@ func (c *Ctx) adp9() {
 		return
 	}
 
+	msk := c.acc("ADP-9", ad, "identifier-space-is-the-key-without-publishIDMask")
+	for bo, m := range badMask {
+		msk.failAt(c.P.Pos(bo.Pos()), "the identifier space of a stored key is taken with mask %#x, want every bit of publishIDMask (%#x) cleared and nothing else: sequence numbers beyond the mask land in no list (their records are never retransmitted) or in the wrong one", m, pm)
+	}
+	if len(badMask) == 0 {
+		msk.pass()
+	}
+	msk.done(1, "both space tests clear exactly publishIDMask")
 	jn := c.acc("ADP-9", ad, "PUBREL→PUBLISH-junction-decided-by-adjacency(test-vectors)")
 	c.adp4Junction(ad, jn, lc, kinds)
 	jn.done(12, "for each representative pair the junction keeps adjacent sequences and drops the others")
@@ -268,7 +288,7 @@ func (c *Ctx) adp9() {
 		}
 		return accs[name]
 	}
-	for _, n := range []string{"Acked=first(ALO)", "atLeastOnce.acceptN=last(ALO)+1", "Completed=first(REL|EO)", "Received=last(REL)+1|Completed", "exactlyOnce.acceptN=last(EO|REL)+1", "submitN=acceptN", "non-empty-list⇒its-counters-installed"} {
+	for _, n := range []string{"Acked=first(ALO)", "atLeastOnce.acceptN=last(ALO)+1", "Completed=first(REL|EO)", "Received=last(REL)+1|Completed", "exactlyOnce.acceptN=last(EO|REL)+1", "submitN=acceptN", "non-empty-list⇒its-counters-installed", "wrap-decided-against-the-start-of-the-range"} {
 		get(n)
 	}
 
@@ -391,7 +411,8 @@ func (c *Ctx) adp9() {
 				empty[kinds[cell]] = true
 			}
 		}
-		stored := map[string]ssa.Value{} // role → last value stored on this path
+		stored := map[string]ssa.Value{}      // role → last value stored on this path
+		firstStored := map[string]ssa.Value{} // role → first value stored on this path
 		instanceOf := func(addr ssa.Value, upto int) string {
 			fa, ok := addr.(*ssa.FieldAddr)
 			if !ok {
@@ -441,6 +462,9 @@ func (c *Ctx) adp9() {
 				roleNow, valNow, addrNow, iNow := role, val, st.Addr, i
 				record = func() {
 					stored[roleNow] = valNow
+					if firstStored[roleNow] == nil {
+						firstStored[roleNow] = valNow
+					}
 					if roleNow == "seq.acceptN" {
 						stored["acceptN:"+instanceOf(addrNow, iNow)] = valNow
 					}
@@ -540,6 +564,100 @@ func (c *Ctx) adp9() {
 		if record != nil {
 			record()
 		}
+		// the wrap adjustment is decided by comparing the value with the start of its own range
+		{
+			wr := get("wrap-decided-against-the-start-of-the-range")
+			var canon func(v ssa.Value, d int) ssa.Value
+			canon = func(v ssa.Value, d int) ssa.Value {
+				v = expand(v, 0)
+				if d > 6 {
+					return v
+				}
+				if r := loadOf(v); r != "" && firstStored[r] != nil {
+					return canon(firstStored[r], d+1)
+				}
+				return v
+			}
+			same := func(a, b ssa.Value) bool {
+				a, b = canon(a, 0), canon(b, 0)
+				if a == b {
+					return true
+				}
+				ca, fa, la := elem(a)
+				cb, fb, lb := elem(b)
+				if ca != nil && ca == cb && fa == fb && la == lb && (fa || la) {
+					return true
+				}
+				// last(L)+1 written twice
+				if xa, ia := plus1(a); ia {
+					if xb, ib := plus1(b); ib {
+						ca, fa, la = elem(xa)
+						cb, fb, lb = elem(xb)
+						return ca != nil && ca == cb && fa == fb && la == lb && (fa || la)
+					}
+				}
+				return false
+			}
+			subjects := []struct{ what, final, base string }{
+				{"the at-least-once accept count", "acceptN:atLeastOnce", "orderedTxs.Acked"},
+				{"the exactly-once accept count", "acceptN:exactlyOnce", "orderedTxs.Completed"},
+				{"Received", "orderedTxs.Received", "orderedTxs.Completed"},
+			}
+			for _, sj := range subjects {
+				fin := stored[sj.final]
+				if fin == nil || stored[sj.base] == nil || firstStored[sj.base] == nil {
+					continue
+				}
+				v := expand(fin, 0)
+				if sj.final != "orderedTxs.Received" {
+					if bo, ok := v.(*ssa.BinOp); ok && bo.Op == token.ADD && isK(bo.Y, 1) {
+						v = expand(bo.X, 0)
+					}
+				} else if same(v, firstStored[sj.base]) {
+					continue // Received = Completed: nothing to wrap
+				}
+				wrapped := false
+				pre := v
+				if bo, ok := v.(*ssa.BinOp); ok && bo.Op == token.ADD && isK(bo.Y, pm+1) {
+					wrapped, pre = true, expand(bo.X, 0)
+				}
+				decided, right := false, false
+				var other ssa.Value
+				for _, cm := range assumed(p, 0, -1) {
+					for _, k := range []cmp{cm, cm.swapped()} {
+						if !same(k.X, pre) {
+							continue
+						}
+						var lt bool
+						switch k.Op {
+						case token.LSS:
+							lt = true
+						case token.GEQ:
+							lt = false
+						default:
+							continue
+						}
+						if lt != wrapped {
+							continue
+						}
+						decided = true
+						if same(k.Y, firstStored[sj.base]) {
+							right = true
+						} else {
+							other = k.Y
+						}
+					}
+				}
+				switch {
+				case right:
+					wr.pass()
+				case decided:
+					wr.fail(p, len(p.Events)-1, "whether %s wraps around is decided by comparing with %s, want the start of its range (%s): a pending range that crosses the end of the identifier space is installed with the accept count below the acknowledge count, nothing is resent and identifiers in flight are handed out again", sj.what, Expr(canon(other, 0)), sj.base)
+				default:
+					wr.fail(p, len(p.Events)-1, "%s is installed (wrap adjustment applied: %v) on a path that has not compared it with the start of its range (%s)", sj.what, wrapped, sj.base)
+				}
+			}
+		}
 		goesOn := p.End == pathx.KReturn && retErr(p, len(p.Events)-1) == triNil
 		for i := range p.Events {
 			if e := &p.Events[i]; e.Kind == pathx.KSend && pathx.RoleOfValue(e.Chan).Key() == "outbound.queue" {
@@ -565,7 +683,8 @@ func (c *Ctx) adp9() {
 		}
 	}
 	c.adp9Sorted(ad, paths, lc, kinds)
-	want := map[string]int{"non-empty-list⇒its-counters-installed": 2, "Acked=first(ALO)": 1, "atLeastOnce.acceptN=last(ALO)+1": 1, "Completed=first(REL|EO)": 2, "Received=last(REL)+1|Completed": 2, "exactlyOnce.acceptN=last(EO|REL)+1": 2, "submitN=acceptN": 2}
+	c.adp9Placeholders(ad, paths, lc, kinds)
+	want := map[string]int{"non-empty-list⇒its-counters-installed": 2, "Acked=first(ALO)": 1, "atLeastOnce.acceptN=last(ALO)+1": 1, "Completed=first(REL|EO)": 2, "Received=last(REL)+1|Completed": 2, "exactlyOnce.acceptN=last(EO|REL)+1": 2, "submitN=acceptN": 2, "wrap-decided-against-the-start-of-the-range": 4}
 	for n, a := range accs {
 		a.done(want[n], "holds on every path that installs the counter")
 	}
@@ -1211,4 +1330,133 @@ func cellOrValue(v ssa.Value) ssa.Value {
 		return u.X
 	}
 	return v
+}
+
+// adp9Placeholders: every adopted record gets one callback placeholder in the
+// queue of its own sequence, so that the acknowledgement that arrives for it
+// finds an entry to close and the capacity test of the next publish counts it.
+// The at-least-once queue is fed by one loop over the at-least-once PUBLISH
+// list; the exactly-once queue by one loop over the PUBREL list and one over
+// the exactly-once PUBLISH list. A loop over the wrong list queues too few
+// (the PUBCOMP of an adopted PUBREL finds the queue empty: the connection is
+// reset on every attempt) or too many (the surplus never completes and eats
+// into ExactlyOnceMax for good).
+func (c *Ctx) adp9Placeholders(ad *ssa.Function, paths []*pathx.Path, lc *listClasses, kinds map[ssa.Value]listKind) {
+	a := c.acc("ADP-9", ad, "one-placeholder-per-adopted-record-in-the-queue-of-its-sequence")
+	type feed struct {
+		inst string
+		kind listKind
+	}
+	seen := map[ssa.Instruction][]feed{}
+	for _, p := range paths {
+		// (the segment that starts at the loop's own header holds the loop condition and nothing older)
+		if p.End != pathx.KLoopBack || len(ad.Blocks) == 0 || p.Start == ad.Blocks[0] {
+			continue
+		}
+		binds := pathBindings(p)
+		kindOf := func(arg ssa.Value) listKind {
+			v := stripConv(arg)
+			for d := 0; d < 6; d++ {
+				b, ok := binds[v]
+				if !ok || b == v {
+					break
+				}
+				v = stripConv(b)
+			}
+			return kinds[lc.find(v)]
+		}
+		// the lists whose lengths make up a bound: len(L), or len(A)+len(B)
+		var lens func(v ssa.Value, d int) []listKind
+		lens = func(v ssa.Value, d int) []listKind {
+			v = stripConv(v)
+			if d > 4 {
+				return nil
+			}
+			if arg, isLen := builtinCall(v, "len"); isLen {
+				if k := kindOf(arg); k != "" {
+					return []listKind{k}
+				}
+				return nil
+			}
+			if bo, ok := v.(*ssa.BinOp); ok && bo.Op == token.ADD {
+				return append(lens(bo.X, d+1), lens(bo.Y, d+1)...)
+			}
+			return nil
+		}
+		for i := range p.Events {
+			e := &p.Events[i]
+			if e.Kind != pathx.KSend || !c.inRegion(ad, e) || pathx.RoleOfValue(e.Chan).Key() != "outbound.queue" {
+				continue
+			}
+			r := pathx.RoleOfValue(e.Chan)
+			inst := ""
+			switch {
+			case r.Has("atLeastOnce"):
+				inst = "atLeastOnce"
+			case r.Has("exactlyOnce"):
+				inst = "exactlyOnce"
+			}
+			var ks []listKind
+			for _, cm := range assumed(p, 0, -1) {
+				for _, k := range []cmp{cm, cm.swapped()} {
+					switch {
+					case k.Op == token.LSS:
+						// index < len(L)
+						if got := lens(k.Y, 0); len(got) > 0 {
+							ks = got
+						}
+					case k.Op == token.GTR && isK(k.Y, 0):
+						// a countdown from len(A)+len(B)
+						if phi, ok := stripConv(k.X).(*ssa.Phi); ok {
+							for _, ed := range phi.Edges {
+								if got := lens(ed, 0); len(got) > 0 {
+									ks = got
+								}
+							}
+						}
+					}
+				}
+			}
+			var fs []feed
+			for _, k := range ks {
+				fs = append(fs, feed{inst, k})
+			}
+			if len(fs) == 0 {
+				fs = []feed{{inst, ""}}
+			}
+			if old, dup := seen[e.Instr]; !dup || (len(old) == 1 && old[0].kind == "") {
+				seen[e.Instr] = fs
+			}
+		}
+	}
+	got := map[feed]int{}
+	for ins, fs := range seen {
+		for _, f := range fs {
+			if f.kind == "" || f.inst == "" {
+				a.failAt(c.P.Pos(ins.Pos()), "a placeholder is queued in a loop that is not bounded by one of the three pending lists (queue: %q, list: %q)", f.inst, f.kind)
+				continue
+			}
+			got[f]++
+		}
+	}
+	if len(seen) == 0 {
+		a.failAt(c.P.Pos(ad.Pos()), "no loop of AdoptSession queues placeholders")
+	}
+	want := []feed{{"atLeastOnce", listALO}, {"exactlyOnce", listEO}, {"exactlyOnce", listREL}}
+	ok := true
+	for _, w := range want {
+		if got[w] != 1 {
+			ok = false
+			a.failAt(c.P.Pos(ad.Pos()), "the %s queue is fed by %d loop(s) over the %s list, want exactly one: every adopted record needs its placeholder, in the queue its acknowledgement will look at", w.inst, got[w], w.kind)
+		}
+		delete(got, w)
+	}
+	for f, n := range got {
+		ok = false
+		a.failAt(c.P.Pos(ad.Pos()), "the %s queue is fed by %d loop(s) over the %s list: records of the other sequence are counted here", f.inst, n, f.kind)
+	}
+	if ok {
+		a.pass()
+	}
+	a.done(1, "atLeastOnce ← at-least-once PUBLISH list; exactlyOnce ← PUBREL list and exactly-once PUBLISH list, one loop each")
 }
